@@ -321,7 +321,7 @@ def fencedContinue (node : Nat) : M PState := do
   let (pos, padding) := indentPositionPadding line lo segment.padding fdata.indent
   let (pos, padding) :=
     if pos < 0 then
-      let p := firstNonSpacePos line
+      let p := firstNonSpacePos line - segment.padding    -- since 52dc664: the peeked line starts with the virtual padding
       ((if p < 0 then 0 else p), (0 : Int))
     else (pos, padding)
   let seg : Segment := { start := segment.start + pos, stop := segment.stop, padding := padding }
